@@ -3,7 +3,7 @@ import z3
 from pyvc.sorts import V, Val, VNONE, SeqV, Bytes, Int, vbool, vint, box, fresh
 from pyvc.state import clsid
 
-ERR = ["ValueError", "IndexError", "KeyError", "NotImplementedError", "TypeError", "AttributeError"]
+ERR = ["ValueError", "IndexError", "KeyError", "NotImplementedError", "TypeError", "AttributeError", "OverflowError"]
 
 
 def register(K):
